@@ -174,14 +174,91 @@ def _split(cases, lines):
     return res
 
 
-def run_impl(engine, cases, timeout=600, extra_env=None):
-    """Run the real code on the cases.  A crash (abort/stack overflow/timeout) is isolated by
-    bisection and recorded as the outcome of the case that caused it."""
+FLUSHING = {"codec", "world", "net"}  # engines whose harness loop flushes after every line
+
+
+def _run_watch(binary, engine, text, timeout, stall, extra_env=None):
+    """like _run_lines, but kills the process when it has produced no new line for `stall` seconds
+    (a hang is an outcome, not something to wait 10 minutes for).  Returns (rc, lines, why)."""
+    import threading
+    import time
+
+    env = dict(ENV)
+    if extra_env:
+        env.update(extra_env)
+    p = subprocess.Popen([binary, engine], stdin=subprocess.PIPE, stdout=subprocess.PIPE, stderr=subprocess.DEVNULL,
+                         text=True, env=env)
+    lines = []
+    last = [time.time()]
+
+    def feed():
+        try:
+            p.stdin.write(text)
+            p.stdin.close()
+        except (BrokenPipeError, OSError):
+            pass
+
+    def read():
+        for l in p.stdout:
+            lines.append(l.rstrip("\n"))
+            last[0] = time.time()
+
+    tf = threading.Thread(target=feed, daemon=True)
+    tr = threading.Thread(target=read, daemon=True)
+    tf.start()
+    tr.start()
+    t0 = time.time()
+    why = None
+    while p.poll() is None:
+        time.sleep(0.05)
+        now = time.time()
+        if now - last[0] > stall:
+            why = "stall"
+        elif now - t0 > timeout:
+            why = "timeout"
+        if why:
+            p.kill()
+            break
+    p.wait()
+    tr.join(5)
+    return (-999 if why else p.returncode), list(lines), why
+
+
+MAX_HANGS = 4  # after this many hung/aborted cases in one batch the rest is not run (the check has failed anyway)
+
+
+def not_run(lines):
+    return len(lines) > 1 and lines[1] == "NOT-RUN"
+
+
+def run_impl(engine, cases, timeout=600, extra_env=None, stall=45, _hangs=0):
+    """Run the real code on the cases.  A crash (abort/stack overflow/hang) is isolated and recorded as
+    the outcome of the case that caused it: engines that flush every line name the culprit directly (the
+    case in which the output stopped); the others are bisected."""
     if not cases:
         return []
     text = "".join(c.text() for c in cases)
-    rc, lines, err = _run_lines(harness_bin(), engine, text, timeout, extra_env)
     want = sum(1 + len(c.ops) for c in cases)
+    if engine in FLUSHING:
+        if _hangs >= MAX_HANGS:
+            return [["case " + c.name] + ["NOT-RUN"] * len(c.ops) for c in cases]
+        rc, lines, why = _run_watch(harness_bin(), engine, text, timeout, stall, extra_env)
+        if rc == 0 and len(lines) == want:
+            return _split(cases, lines)
+        # the case in which the output stopped
+        i, idx = 0, len(cases) - 1
+        for k, c in enumerate(cases):
+            n = 1 + len(c.ops)
+            if len(lines) < i + n:
+                idx = k
+                break
+            i += n
+        tag = "TIMEOUT" if rc == -999 else f"ABORT rc={rc}"
+        got = lines[i : i + 1 + len(cases[idx].ops)]
+        got += [tag] * (1 + len(cases[idx].ops) - len(got))
+        return (_split(cases[:idx], lines[:i]) + [got]
+                + run_impl(engine, cases[idx + 1 :], timeout, extra_env, stall, _hangs + 1))
+    rc, lines, err = _run_lines(harness_bin(), engine, text, timeout, extra_env)
     if rc == 0 and len(lines) == want:
         return _split(cases, lines)
     if len(cases) == 1:
